@@ -299,3 +299,36 @@ class Campaign:
 
     def count(self, key, n=1):
         self.distribution[key] = self.distribution.get(key, 0) + n
+
+
+# standard-library primitives and the axioms the standard library itself declares about them (Uint63 / PrimFloat specs):
+# what coqchk -o may list for a property file (only C07 uses them)
+COQCHK_ALLOWED = ("Coq.Numbers.Cyclic.Int63.", "Coq.Floats.")
+
+
+def coqchk(pid):
+    """coqchk -o on Properties/<pid>.vo: independent re-check + axiom list -> dict(ok, axioms, msg, wall)"""
+    import time as _t
+    t0 = _t.time()
+    try:
+        p = subprocess.run(["coqchk", "-silent", "-o", "-Q", ".", "VD", f"VD.Properties.{pid}"], cwd=COQ, stdout=subprocess.PIPE,
+                           stderr=subprocess.STDOUT, timeout=1500)
+    except subprocess.TimeoutExpired:
+        return {"ok": False, "axioms": [], "msg": "timed out", "wall": round(_t.time() - t0, 1)}
+    out = p.stdout.decode(errors="replace")
+    axioms, section = [], None
+    for line in out.splitlines():
+        t = line.strip()
+        if t.startswith("* "):
+            section = t[2:].split(":")[0]
+            rest = t.split(":", 1)[1].strip() if ":" in t else ""
+            if section == "Axioms" and rest and rest != "<none>":
+                axioms.append(rest)
+            elif section != "Axioms" and section != "Theory" and rest and rest != "<none>":
+                return {"ok": False, "axioms": axioms, "msg": f"{section}: {rest}", "wall": round(_t.time() - t0, 1)}
+        elif section == "Axioms" and t:
+            axioms.append(t)
+    bad = [a for a in axioms if not a.startswith(COQCHK_ALLOWED)]
+    ok = p.returncode == 0 and not bad and "CONTEXT SUMMARY" in out
+    msg = "" if ok else (f"axioms outside the standard library: {bad[:5]}" if bad else out[-300:])
+    return {"ok": ok, "axioms": axioms, "msg": msg, "wall": round(_t.time() - t0, 1)}
